@@ -19,7 +19,7 @@ LEVEL_TEXT = ('Lean 4 theorems, for all shapes, masks, amplitudes and OPDs: a su
               'a fresh wavefront through any non-empty chain of array-masked partitioned planes, then propagate_dft as the driver models it (generated window block and shapes, a tilt shift common to all fields, optional output mask: segmented_eq_monolithic_propagateDft) -> equal Wavefront.field and intensity at every sample; well-formedness follows from the masks alone for constructed planes (splitPlane_wf_of_masks); Tilt planes anywhere in the chain and Wavefront(tilt=) as ONE theorem (segmented_eq_monolithic_interleaved: every field carries each Tilt once, data unchanged); through propagate_fft by composition with C09 (segmented_eq_monolithic_propagate_fft); chain_exp: the explicit product of amplitude*exp(2 pi i opd/lambda) over the planes. The NumPy plumbing is a hand model checked against the '
               'implementation, with both descriptions run on the real code.')
 LEVEL_NOTE = ('Partial: segments / intermediate fields with exactly one element are excluded by hypothesis (open known finding '
-              'KF-C03-one-pixel-segment; the hypothesis ExtOK is evaluated by the model (c03.extok, extOKb_iff) on every case of the classes the ExtOK theorems cover: segmented-vs-monolithic chains in both number systems and the mixed Tilt/segmented chains; not for the fitted-tilt, re-use and big-aperture classes); the theorems '
+              'KF-C03-one-pixel-segment — not repaired because C06 as given makes a (1,1) array a broadcastable constant, so the two properties conflict on that input; the hypothesis ExtOK is evaluated by the model (c03.extok, extOKb_iff) on every case of the classes the ExtOK theorems cover: segmented-vs-monolithic chains in both number systems and the mixed Tilt/segmented chains; not for the fitted-tilt, re-use and big-aperture classes); the theorems '
               'cover a shift common to all fields (shared Tilt planes, Wavefront(tilt=)), an output mask and propagate_fft (via C09); per-segment '
               'fitted tilts are correspondence + oracle only. '
               'Trusted: Lean kernel, py2lean subset semantics, NumPy semantics as modelled, np.dot sums, generator coverage.')
